@@ -101,7 +101,7 @@ func (st *State) assume(t Term, note string) {
 }
 
 func (st *State) freshConst(prefix string, s *Sort) Term {
-	name := st.fe.freshName(prefix)
+	name := st.fe.freshName(shortFn(prefix))
 	st.ctx = st.ctx.Decl("(declare-const " + name + " " + s.String() + ")")
 	return Term{name, s}
 }
